@@ -334,6 +334,12 @@ package utils
 //@            dyn(r0.Value, *sdcpb.TypedValue_StringVal) != nil && dyn(r0.Value, *sdcpb.TypedValue_StringVal).StringVal == value
 //@   loop 0 invariant true
 
+// C20: the value to bring to its YANG type is there: every caller hands on a value it has looked at (an entry of a
+// leaf-list a device sent may be an element without a value, which decodes to nil)
+//@ func TypedValueToYANGType
+//@   props C20
+//@   requires the_value_is_there: tv != nil
+
 // C12: the text of a string-like leaf is the value: it reaches the string converter as it came in (numbers may be
 // read leniently, texts may not be touched)
 //@ func ConvertLeafRef
